@@ -4,6 +4,7 @@ import (
 	"fmt"
 
 	"github.com/google/go-cmp/cmp"
+	"github.com/google/go-cmp/cmp/cmpopts"
 	"github.com/grafana/cog/internal/tools"
 )
 
@@ -608,10 +609,10 @@ func (object *Object) AddToPassesTrail(trail string) {
 
 func (object Object) Equal(other Object) bool {
 	return object.Name == other.Name &&
-		cmp.Equal(object.Comments, other.Comments) &&
-		cmp.Equal(object.Type, other.Type) &&
+		cmp.Equal(object.Comments, other.Comments, cmpopts.EquateEmpty()) &&
+		cmp.Equal(object.Type, other.Type, cmpopts.EquateEmpty()) &&
 		cmp.Equal(object.SelfRef, other.SelfRef) &&
-		cmp.Equal(object.PassesTrail, other.PassesTrail)
+		cmp.Equal(object.PassesTrail, other.PassesTrail, cmpopts.EquateEmpty())
 }
 
 func (object Object) DeepCopy() Object {
